@@ -327,6 +327,10 @@ def count(d, k, n=1):
     d[k] = d.get(k, 0) + n
 
 
+def _rejects(o):
+    return isinstance(o, str) and o.startswith("raised:") and o != "raised:none"
+
+
 class Session:
     def __init__(self, script, only_replicas=None):
         self.script = script
@@ -1313,6 +1317,8 @@ class Session:
                         continue
                     if oa == "crash" or oa == "unobservable":
                         continue  # already reported on the plain replica
+                    if _rejects(oa) and _rejects(ob):
+                        continue  # both reject the erroneous call; which exception type is not a result
                     self.viol("C23.outcome-diverges", props, i, rep, "step %d (%s): plain replica outcome %s, perturbed replica %s under %s" % (i, a.get("op"), oa, ob, perts), "diverge")
                     continue
                 if oa != "ok":
